@@ -259,13 +259,118 @@ def _arrays_of_objects(U, m, args):
     return out
 
 
+# ---------------------------------------------------------------- object <-> flat dict
+def rt_cases(tier):
+    @st.composite
+    def one(draw):
+        U = draw(spec.universes(max_classes=3, xml=False, multi_ns=False))
+        if not U["classes"]:
+            U["classes"] = [{"name": "C0", "ns": U["tns"], "extends": None,
+                             "fields": [["a", {"k": "prim", "t": "Integer", "f": {},
+                                               "occ": {"min": 0, "max": 1, "nillable": True}}],
+                                        ["l", {"k": "array", "of": {"k": "prim", "t": "Unicode", "f": {}},
+                                               "occ": {"min": 0, "max": 1, "nillable": True}}]]}]
+        cname = draw(st.sampled_from([c["name"] for c in U["classes"]]))
+        t = {"k": "ref", "n": cname}
+        vg = values.ValueGen(U, special_floats=False)
+        vg.nil_unspellable = True
+        v = draw(vg.single(t).filter(lambda v: _no_leafless_elements(U, t, v)))
+        names = set()
+        for c in U["classes"]:
+            names.update(f for f, _ in c["fields"])
+        delims = [d for d in DELIMS if not any(d in n for n in names)]
+        return {"part": "rt", "U": U, "cls": cname, "v": v, "delim": draw(st.sampled_from(delims))}
+    return one()
+
+
+def run_rt(case, rec):
+    from spyne.protocol.http import HttpRpc
+    from spyne.model.binary import ByteArray
+    fails = []
+    U, cname, v = case["U"], case["cls"], case["v"]
+    t = {"k": "ref", "n": cname}
+    try:
+        B = build.Built(U)
+        P = HttpRpc(hier_delim=case["delim"])
+        cls = B.classes[cname]
+        inst = B.to_native(t, v)
+    except Exception as e:
+        rec.case(case, classes=["rt:build-skip"])
+        return fails
+
+    def eater(prot, val, typ):
+        if val is None:
+            return None
+        if issubclass(typ, ByteArray):
+            return prot.to_unicode(typ, val, prot.binary_encoding)
+        return prot.to_unicode(typ, val)
+    try:
+        flat = P.object_to_simple_dict(cls, inst, subinst_eater=eater)
+    except Exception as e:
+        et, where = F.exc_origin(e)
+        fails.append(("C03|rt-flatten-raises|%s|%s" % (et, where),
+                      "object_to_simple_dict raised %r for %r" % (e, v)))
+        rec.case(case, failures=fails, classes=["rt:raises"])
+        return fails
+    # (1) same key structure as the reference flattening
+    ref_pairs = ref_flat.Flat(U, case["delim"]).request_pairs({"args": [["o", t]]}, [v])
+    ref_keys = {}
+    for k, _ in ref_pairs:
+        k2 = k[len("o" + case["delim"]):] if k.startswith("o" + case["delim"]) else k
+        ref_keys[k2] = ref_keys.get(k2, 0) + 1
+    got_keys = {}
+    for k, val in flat.items():
+        if val is None:
+            continue
+        got_keys[k] = len(val) if isinstance(val, (list, tuple)) else 1
+    got_keys = {k: n for k, n in got_keys.items() if n}
+    if got_keys != ref_keys:
+        only_ref = sorted(set(ref_keys) - set(got_keys))[:4]
+        only_got = sorted(set(got_keys) - set(ref_keys))[:4]
+        fails.append(("C03|rt-flat-keys|%s" % ("missing" if only_ref else ("extra" if only_got else "counts")),
+                      "flattened keys differ from the documented notation: missing %r, unexpected %r, "
+                      "counts %r vs %r" % (only_ref, only_got, got_keys, ref_keys)))
+    # (2) simple_dict_to_object(object_to_simple_dict(x)) == x
+    doc = {}
+    for k, val in flat.items():
+        if val is None:
+            continue
+        doc[k] = [x for x in val] if isinstance(val, (list, tuple)) else [val]
+    try:
+        back = P.simple_dict_to_object(None, doc, cls)
+        exp = ref_flat.prune(U, t, _strip_empty_text(U, t, v))
+        r = values.value_eq(B, t, back, exp, path="o", ident=values.Ident(
+            empty_seq_is_none=True, empty_bytes_is_none=True, empty_text_is_none=True,
+            empty_wrapped_is_none=True))
+        if exp is None and back is not None:
+            r = None       # an object without leaves comes back as an empty instance
+        if r:
+            fails.append(("C03|rt-roundtrip|%s" % _diff_class(t, r),
+                          "simple_dict_to_object(object_to_simple_dict(x)) differs from x: %s\nflat: %r"
+                          % (r, dict(list(flat.items())[:12]))))
+    except Exception as e:
+        et, where = F.exc_origin(e)
+        fails.append(("C03|rt-parse-raises|%s|%s" % (et, where),
+                      "simple_dict_to_object raised %r on the flat form of %r" % (e, v)))
+    labs = values.classes_of(t, v, U)
+    nt = {"labs": sorted(labs), "delim": case["delim"]} if (labs & {"nested_object", "wrapped_array>=2",
+                                                                   "unwrapped_array>=2"}) else None
+    rec.case(case, failures=fails, nontrivial=nt, classes=["part:rt"] + ["rt:" + x for x in labs])
+    return fails
+
+
 def shards(tier):
     n = 600 if tier == "quick" else 15000
-    return [{"kind": "hyp", "i": i, "n": n} for i in range(16)]
+    n2 = 400 if tier == "quick" else 8000
+    return [{"kind": "hyp", "part": "req", "i": i, "n": n} for i in range(12)] + \
+           [{"kind": "hyp", "part": "rt", "i": i, "n": n2} for i in range(4)]
 
 
 def run_shard(shard, rec):
-    rec.hyp(cases(rec.tier), lambda case: run_case(case, rec), shard["n"])
+    if shard.get("part") == "rt":
+        rec.hyp(rt_cases(rec.tier), lambda case: run_rt(case, rec), shard["n"])
+    else:
+        rec.hyp(cases(rec.tier), lambda case: run_case(case, rec), shard["n"])
 
 
 class _NullRec(object):
@@ -279,4 +384,6 @@ class _NullRec(object):
 
 
 def replay(case):
+    if case.get("part") == "rt":
+        return run_rt(case, _NullRec())
     return run_case(case, _NullRec())
